@@ -264,3 +264,24 @@ def _good_value(dtype):
     return {"int": [4, 5], "float": [2.5], "boolean": [False], "string": ["n"], "text": ["n\nm"], "url": ["http://y"],
             "person": ["C. D."], "date": [dt.date(2021, 2, 3)], "time": [dt.time(4, 5, 6)],
             "datetime": [dt.datetime(2021, 2, 3, 4, 5, 6)]}.get(str(dtype), ["s"])
+
+
+def normal_form(spec):
+    """Copy of a spec with temporal values as the API stores them (no sub-second part, naive)."""
+    import copy
+    spec = copy.deepcopy(spec)
+
+    def fix(v):
+        if isinstance(v, (dt.datetime, dt.time)):
+            return v.replace(microsecond=0, tzinfo=None)
+        return v
+
+    def rec(n):
+        if n.get("k") == "prop":
+            n["values"] = [fix(v) for v in n["values"]]
+        for c in n.get("sections", []):
+            rec(c)
+        for c in n.get("properties", []):
+            rec(c)
+    rec(spec)
+    return spec
